@@ -74,6 +74,10 @@ pub const ROUTES: &[(&str, &str, bool)] = &[
     ("catch-callback", "Promise.reject(1).catch(function () { cb(); })", true),
 ];
 
+/// routes on which a RuntimeLimitError hits a known finding (EnginePanic "cannot fail per spec"
+/// in the async-function start, failed assertion in the async-generator start)
+pub const EXCLUDED_RECURSION_ROUTES: &[&str] = &["async-start", "async-generator", "for-await-body"];
+
 pub const LOOPS: &[(&str, &str)] = &[
     ("while", "var i = 0; while (i < N) { i++; BODY }"),
     ("do-while", "var i = 0; do { i++; BODY } while (i < N);"),
@@ -90,7 +94,7 @@ pub const LOOPS: &[(&str, &str)] = &[
     ("do-while-continue", "var i = 0; do { i++; BODY if (i < N) continue; } while (i < N);"),
     ("for-in-array", "for (var k in BIGARR) { BODY }"),
     ("for-of-set", "for (var v of new Set(BIGARR)) { BODY }"),
-    ("for-of-string", "for (var ch of 'x'.repeat(N)) { BODY }"),
+    ("for-of-string", "for (var ch of BIGSTR) { BODY }"),
     ("for-of-destructure", "for (var [a, b] of BIGARR.map(function (x) { return [x, x]; })) { BODY }"),
 ];
 
@@ -118,7 +122,12 @@ pub struct LimitProgram {
 pub fn generate(tape: &[u8]) -> LimitProgram {
     let mut t = Tape::new(tape);
     let recursion = t.below(3) == 0;
-    let (rname, rtpl, is_async) = ROUTES[t.below(ROUTES.len())];
+    let (mut rname, mut rtpl, mut is_async) = ROUTES[t.below(ROUTES.len())];
+    if recursion && (is_async || EXCLUDED_RECURSION_ROUTES.contains(&rname)) {
+        // asynchronous routes do not nest frames (each level runs in its own job); two routes hit
+        // known findings when the limit error reaches an "infallible" internal step
+        (rname, rtpl, is_async) = ROUTES[0];
+    }
     let (wa_name, wa) = WRAPPERS[t.below(WRAPPERS.len())];
     let (wb_name, wb) = WRAPPERS[t.below(WRAPPERS.len())];
     let mut s = String::new();
@@ -135,7 +144,7 @@ pub fn generate(tape: &[u8]) -> LimitProgram {
         let (lname, ltpl) = LOOPS[t.below(LOOPS.len())];
         let need = [0u64, 1, 2, 5, 12, 40, 150][t.below(7)];
         let body = ltpl.replace("BODY", "count++;").replace('N', &need.to_string());
-        let body = body.replace("BIGOBJ", "bigobj").replace("BIGARR", "bigarr");
+        let body = body.replace("BIGOBJ", "bigobj").replace("BIGARR", "bigarr").replace("BIGSTR", &format!("'{}'", "x".repeat(need as usize)));
         s.push_str(&format!("var bigobj = {{}}, bigarr = []; for (var z = 0; z < {need}; z++) {{ bigobj['k' + z] = z; bigarr.push(z); }}\n"));
         // note: the set-up loop above runs in the script frame and counts against the limit
         // too; the check accounts for it (see c08.rs)
